@@ -608,6 +608,65 @@ class _InlineExprCalls(ast.NodeTransformer):
     visit_ClassDef = _skip
 
 
+def _inline_accumulator(h: "_Helper", recv, call: ast.Call, acc: str,
+                        counter: List[int]) -> Optional[List[ast.stmt]]:
+    body = _strip_doc(h.node.body)  # type: ignore[attr-defined]
+    if len(body) < 2 or not isinstance(body[-1], ast.Return) or not isinstance(
+            body[-1].value, ast.Name):
+        return None
+    loc = body[-1].value.id
+    first = body[0]
+    tg = first.targets[0] if isinstance(first, ast.Assign) and len(first.targets) == 1 else (
+        first.target if isinstance(first, ast.AnnAssign) else None)
+    val = getattr(first, "value", None)
+    if not (isinstance(tg, ast.Name) and tg.id == loc and isinstance(val, ast.List)
+            and not val.elts):
+        return None
+    mid = body[1:-1]
+    if any(isinstance(x, (ast.Return, ast.Yield, ast.YieldFrom, ast.Await))
+           for s_ in mid for x in _walk_scope(s_)):
+        return None
+    # the local list is only appended to
+    parents: Dict[int, ast.AST] = {}
+    for s_ in mid:
+        for x in ast.walk(s_):
+            for c in ast.iter_child_nodes(x):
+                parents[id(c)] = x
+    for s_ in mid:
+        for x in ast.walk(s_):
+            if isinstance(x, ast.Name) and x.id == loc:
+                p_ = parents.get(id(x))
+                ok = isinstance(p_, ast.Attribute) and p_.attr in ("append", "extend") and \
+                    isinstance(parents.get(id(p_)), ast.Call) and parents[id(p_)].func is p_
+                ok = ok or (isinstance(p_, ast.AugAssign) and p_.target is x and
+                            isinstance(p_.op, ast.Add))
+                if not ok:
+                    return None
+    env = h.bind(call, recv)
+    if env is None:
+        return None
+    counter[0] += 1
+    suffix = f"_h{counter[0]}"
+    mid = copy.deepcopy(mid)
+    stored = {x.id for s_ in mid for x in _walk_scope(s_)
+              if isinstance(x, ast.Name) and isinstance(x.ctx, ast.Store)}
+    pre: List[ast.stmt] = []
+    for p_ in list(env):
+        if p_ in stored:
+            pre.append(ast.Assign(targets=[ast.Name(id=p_ + suffix, ctx=ast.Store())],
+                                  value=copy.deepcopy(env[p_])))
+            env[p_] = ast.Name(id=p_ + suffix, ctx=ast.Load())
+    ren = {nm: nm + suffix for nm in stored if nm != loc}
+    ren[loc] = acc
+
+    class _Ren(ast.NodeTransformer):
+        def visit_Name(self, node: ast.Name) -> ast.AST:
+            if node.id in ren and node.id not in env:
+                return ast.copy_location(ast.Name(id=ren[node.id], ctx=node.ctx), node)
+            return node
+    return pre + [_SubstNames(env).visit(_Ren().visit(s_)) for s_ in mid]
+
+
 def _inline_proc_calls(fn: ast.AST, helpers, cls, counter: List[int]) -> int:
     n = 0
     for block in list(_blocks(fn)):
@@ -622,6 +681,31 @@ def _inline_proc_calls(fn: ast.AST, helpers, cls, counter: List[int]) -> int:
                 call, how = st.value, "assign"
             elif isinstance(st, ast.Return) and isinstance(st.value, ast.Call):
                 call, how = st.value, "return"
+            # `acc += helper(...)` / `acc.extend(helper(...))` where the helper builds and
+            # returns a fresh list: the helper's list is the caller's accumulator
+            acc_call = None
+            acc_name = None
+            if isinstance(st, ast.AugAssign) and isinstance(st.op, ast.Add) and isinstance(
+                    st.target, ast.Name) and isinstance(st.value, ast.Call):
+                acc_call, acc_name = st.value, st.target.id
+            elif isinstance(st, ast.Expr) and isinstance(st.value, ast.Call) and isinstance(
+                    st.value.func, ast.Attribute) and st.value.func.attr == "extend" and \
+                    isinstance(st.value.func.value, ast.Name) and len(st.value.args) == 1 and \
+                    isinstance(st.value.args[0], ast.Call):
+                acc_call, acc_name = st.value.args[0], st.value.func.value.id
+            if acc_call is not None:
+                h_a, recv_a = _helper_of_call(acc_call, helpers, cls)
+                new_a = _inline_accumulator(h_a, recv_a, acc_call, acc_name, counter) \
+                    if h_a is not None else None
+                if new_a is not None:
+                    for s_ in new_a:
+                        for x in ast.walk(s_):
+                            if not hasattr(x, "lineno"):
+                                ast.copy_location(x, st)
+                    block[i:i + 1] = new_a or [ast.Pass()]
+                    n += 1
+                    i += len(new_a) or 1
+                    continue
             h = recv = None
             if call is not None:
                 h, recv = _helper_of_call(call, helpers, cls)
